@@ -1,4 +1,5 @@
 import Netpol.Proofs.ConnSet
+import Netpol.Proofs.ConnSetDiff
 
 /-! C11: the connection-set algebra (`ConnSet`, model of `connectionset.go` / `portset.go`)
 against its numeric denotation `ConnSet.den`. Only the property statements are here, each proved
@@ -392,5 +393,129 @@ example : (∀ pr, exA.names pr = []) ∧ ∀ pr ps, exA.get pr = some ps → ps
   · intro pr ps h
     cases pr <;> simp [ConnSet.get] at h
     subst h; rfl
+
+/-! ### D. containment and difference are one notion
+
+`Subtract` deletes a protocol entry exactly when its port set is `ContainedIn` the entry of the
+other set (`if ports.ContainedIn(otherPorts) { delete } else { ports.subtract(otherPorts) }`), and
+`ContainedIn` asks that same test of every entry. So the law "contained sets leave an empty
+difference" holds for all values of the model, named and excluded ports included, with no
+well-formedness hypothesis; the converse needs a hypothesis only when the receiver is the AllowAll
+form. -/
+
+/-- `TCP 1-65535` (`GetAllTCPConnections`) -/
+def exT : ConnSet := ConnSet.allTCP
+
+/-- `TCP 80,http` and `TCP 80-90,http,https`: named ports on both sides -/
+def exM : ConnSet :=
+  (ConnSet.mk' false).addConnection .TCP
+    (((PortSet.mk' false).addPort (.num 80)).addPort (.name "http"))
+def exM' : ConnSet :=
+  (ConnSet.mk' false).addConnection .TCP
+    ((((PortSet.mk' false).addPortRange 80 90).addPort (.name "http")).addPort (.name "https"))
+
+/-- containment gives an empty difference. Full strength: every pair of values, named ports
+included, no hypothesis (`WF` is not needed: the entry test of `Subtract` is the entry test of
+`ContainedIn`, and the AllowAll receiver is contained in the AllowAll form only, whose `Subtract`
+returns the empty set). -/
+theorem subtract_isEmpty_of_containedIn (c d : ConnSet) (h : c.containedIn d = true) :
+    (c.subtract d).isEmpty = true := ConnSet.subtract_isEmpty_of_containedIn c d h
+
+/-- the same under the hypotheses the other C11 theorems carry (a corollary; neither is used) -/
+theorem subtract_isEmpty_of_containedIn_wf (_hc : c.WF) (_hd : d.WF)
+    (h : c.containedIn d = true) : (c.subtract d).isEmpty = true :=
+  ConnSet.subtract_isEmpty_of_containedIn c d h
+
+/-- receiver not in the AllowAll form: the two are the same Boolean, again for all values, named
+ports included -/
+theorem subtract_isEmpty_eq_containedIn_of_not_allowAll (ha : c.allowAll = false) (d : ConnSet) :
+    (c.subtract d).isEmpty = c.containedIn d := ConnSet.subtract_isEmpty_eq_containedIn ha d
+
+/-- the converse, named ports allowed on both sides. When the receiver is All Connections the
+argument has to be canonical and free of excluded named ports (the hypotheses of
+`containedIn_iff`): otherwise `d` can hold the full range on the three protocols, so that
+`All − d` is empty, without being All Connections (see the two witnesses below). -/
+theorem containedIn_of_subtract_isEmpty (hc : c.WF) (hd : d.Canonical)
+    (hde : ∀ pr ps, d.get pr = some ps → ps.excluded = [])
+    (h : (c.subtract d).isEmpty = true) : c.containedIn d = true :=
+  ConnSet.containedIn_of_subtract_isEmpty hc hd hde h
+
+/-- containment and an empty difference are one notion -/
+theorem subtract_isEmpty_iff_containedIn (hc : c.WF) (hd : d.Canonical)
+    (hde : ∀ pr ps, d.get pr = some ps → ps.excluded = []) :
+    (c.subtract d).isEmpty = true ↔ c.containedIn d = true :=
+  ⟨containedIn_of_subtract_isEmpty hc hd hde, subtract_isEmpty_of_containedIn c d⟩
+
+/-- the converse under `WF` alone, for sets without named ports: false (next theorem) -/
+def SubtractEmptyImpliesContainedWF : Prop :=
+  ∀ c d : ConnSet, c.WF → d.WF → (∀ pr, c.names pr = []) → (∀ pr, d.names pr = []) →
+    (c.subtract d).isEmpty = true → c.containedIn d = true
+
+/-- witness: `All − fullEntries` is empty, `All.ContainedIn(fullEntries)` is false
+(`fullEntries` = the three full entries without the AllowAll flag: well-formed, not canonical, no
+named port) -/
+theorem not_subtractEmptyImpliesContainedWF : ¬ SubtractEmptyImpliesContainedWF := by
+  intro h
+  have := h (ConnSet.mk' true) ConnSet.fullEntries (by decide) (by decide)
+    (fun pr => by cases pr <;> rfl) (fun pr => by cases pr <;> rfl) (by decide)
+  revert this
+  decide
+
+/-- the converse for canonical sets without named ports, excluded named ports allowed: false too
+(next theorem) -/
+def SubtractEmptyImpliesContainedCanonical : Prop :=
+  ∀ c d : ConnSet, c.Canonical → d.Canonical → (∀ pr, c.names pr = []) →
+    (∀ pr, d.names pr = []) → (c.subtract d).isEmpty = true → c.containedIn d = true
+
+/-- witness: `d = All − {UDP http}` is canonical, holds no named port, has the full numeric range
+on the three protocols and the excluded name `http`; `All − d` is empty (the excluded name is not
+a thing `Subtract` keeps track of on the receiver's side) and `All.ContainedIn(d)` is false -/
+theorem not_subtractEmptyImpliesContainedCanonical : ¬ SubtractEmptyImpliesContainedCanonical := by
+  intro h
+  have e : (ConnSet.mk' true).subtract exH =
+      ⟨false, some (PortSet.mk' true), some ⟨[⟨1, 65535⟩], [], ["http"]⟩,
+        some (PortSet.mk' true)⟩ := by decide
+  have := h (ConnSet.mk' true) ((ConnSet.mk' true).subtract exH) (by decide) (by decide)
+    (fun pr => by cases pr <;> rfl) (fun pr => by rw [e]; cases pr <;> rfl) (by decide)
+  revert this
+  decide
+
+/-- non-vacuity of `subtract_isEmpty_of_containedIn`: a set holding a named port against the full
+TCP range (the full range covers the name), both well-formed and not trivial -/
+example : exN.WF ∧ exT.WF ∧ exN.isEmpty = false ∧ exT.isEmpty = false ∧ exT.allowAll = false ∧
+    "http" ∈ exN.names .TCP ∧ exT = ⟨false, some ⟨[⟨1, 65535⟩], [], []⟩, none, none⟩ ∧
+    exN.containedIn exT = true ∧ (exN.subtract exT).isEmpty = true := by decide
+/-- named ports on both sides -/
+example : exM.WF ∧ exM'.WF ∧ exM.names .TCP = ["http"] ∧ exM'.names .TCP = ["http", "https"] ∧
+    exM.containedIn exM' = true ∧ (exM.subtract exM').isEmpty = true ∧
+    exM'.containedIn exM = false ∧ (exM'.subtract exM).isEmpty = false := by decide
+/-- the named port decides: `TCP http` against `TCP 80-90`, neither contained nor an empty
+difference (the two sides of `subtract_isEmpty_eq_containedIn_of_not_allowAll` are both false) -/
+example : exN.allowAll = false ∧ exN.containedIn exA = false ∧
+    (exN.subtract exA).isEmpty = false := by decide
+/-- non-vacuity of `containedIn_of_subtract_isEmpty` / `subtract_isEmpty_iff_containedIn` on the
+same pair, and on the AllowAll receiver -/
+example : exN.WF ∧ exT.Canonical ∧ (∀ pr ps, exT.get pr = some ps → ps.excluded = []) ∧
+    (exN.subtract exT).isEmpty = true := by
+  have e : exT = ⟨false, some ⟨[⟨1, 65535⟩], [], []⟩, none, none⟩ := by decide
+  refine ⟨by decide, by decide, ?_, by decide⟩
+  intro pr ps h
+  rw [e] at h
+  cases pr <;> simp [ConnSet.get] at h
+  subst h; rfl
+example : (ConnSet.mk' true).WF ∧ (ConnSet.mk' true).Canonical ∧
+    (∀ pr ps, (ConnSet.mk' true).get pr = some ps → ps.excluded = []) ∧
+    ((ConnSet.mk' true).subtract (ConnSet.mk' true)).isEmpty = true := by
+  refine ⟨by decide, by decide, ?_, by decide⟩
+  intro pr ps h
+  rw [ConnSet.get_mk'] at h
+  cases h
+/-- the two witnesses, as values -/
+example : ((ConnSet.mk' true).subtract ConnSet.fullEntries).isEmpty = true ∧
+    (ConnSet.mk' true).containedIn ConnSet.fullEntries = false ∧ ConnSet.fullEntries.WF ∧
+    ¬ ConnSet.fullEntries.Canonical := by decide
+example : ((ConnSet.mk' true).subtract ((ConnSet.mk' true).subtract exH)).isEmpty = true ∧
+    (ConnSet.mk' true).containedIn ((ConnSet.mk' true).subtract exH) = false ∧
+    ((ConnSet.mk' true).subtract exH).Canonical := by decide
 
 end Netpol.Properties.C11
